@@ -397,12 +397,14 @@ class Report:
         self._write_evidence(exit_code)
         for ln in lines:
             print(ln)
-        claimed_n = len([o for o in claimed if not o.meta.get("known_finding")])
-        disc = len([o for o in claimed if o.verdict == DISCHARGED])
+        # bounded stand-ins are checked (a failure is a violation with its input) but never counted as proved
+        bnd = [o for o in claimed if o.kind == "bounded"]
+        claimed_n = len([o for o in claimed if not o.meta.get("known_finding") and o.kind != "bounded"])
+        disc = len([o for o in claimed if o.verdict == DISCHARGED and o.kind != "bounded"])
         be = [o for o in self.obls if not o.claimed]
         print(
-            "%s[%s]: %d/%d claimed obligations discharged; %d known finding(s); best-effort %d/%d; %.1fs; exit %d"
-            % (self.prop, self.tier, disc, claimed_n, n_known, len([o for o in be if o.verdict == DISCHARGED]), len(be), time.time() - self.t0, exit_code)
+            "%s[%s]: %d/%d claimed obligations discharged; %d known finding(s); best-effort %d/%d;%s %.1fs; exit %d"
+            % (self.prop, self.tier, disc, claimed_n, n_known, len([o for o in be if o.verdict == DISCHARGED]), len(be), (" bounded stand-ins %d/%d held (not proofs);" % (len([o for o in bnd if o.verdict == DISCHARGED]), len(bnd))) if bnd else "", time.time() - self.t0, exit_code)
         )
         return exit_code
 
@@ -442,7 +444,8 @@ class Report:
         return os.path.relpath(fn, ROOT)
 
     def _write_evidence(self, exit_code):
-        claimed = [o for o in self.obls if o.claimed and not o.meta.get("known_finding")]
+        claimed = [o for o in self.obls if o.claimed and not o.meta.get("known_finding") and o.kind != "bounded"]
+        bnd = [o for o in self.obls if o.kind == "bounded"]
         be = [o for o in self.obls if not o.claimed]
         by_solver = {}
         for o in self.obls:
@@ -472,6 +475,7 @@ class Report:
                 "solver_seconds_total": round(sum(o.seconds for o in self.obls), 2),
                 "best_effort": {"count": len(be), "discharged": len([o for o in be if o.verdict == DISCHARGED]), "undecided": [o.id for o in be if o.verdict == UNDECIDED][:200], "refuted": [o.id for o in be if o.verdict == REFUTED][:200]},
                 "bounded_stand_ins": self.bounded,
+                "bounded_obligations": {"count": len(bnd), "held": len([o for o in bnd if o.verdict == DISCHARGED]), "counted_as_proved": False, "ids": [o.id for o in bnd][:400]},
                 "known_findings": self.known,
                 "extraction_drops": self.extraction_drops,
                 "vacuity": {
